@@ -12,6 +12,7 @@ CFG = {
             "between frames also Notify (OSC 9 / OSC 777), ClipboardPush, Bell; Close with the event queue filled to capacity and input pending (F53's region); "
             "frames then Close triggered by a kill signal on the input goroutine, half of them with 2-9 keys pending (F13's region); Close while suspended; SetAppID then input-goroutine panic in a child process; a real SIGTERM sent by the parent to a child process whose Vaxis has its signal handlers installed "
             "(with / without in-band resize: setupSignals branches on it) — the process must survive and restore the terminal); "
+            "round 4, every eighth configuration each: kill signal while suspended (served by the input goroutine Resume starts; wire = Resume's tokens then Close's), kill signal before the first frame, kill signal mid-frame forced through console.Reset() (F404); "
             "a session is judged only when start-up saw the fake terminal's answers (stored cursor style / app id / capability flags = configured ones; otherwise start-up is repeated, finally `incomplete`); "
             "the oracle compares with the fake terminal's own original cursor style / application id, not with what Vaxis stored; "
             "every frame line is also judged against the hypotheses Op.ok of the session theorem (admissible tokens, no hyperlink left open); "
@@ -32,7 +33,14 @@ CFG = {
                   "session). Signal and panic paths are model statements: the skeleton of openTty's goroutine is regenerated (facts_inputLoop) and signal_path_is_close / panic_path_is_close prove that "
                   "both write exactly what Close writes from every state. facts_savedValueWrites pins that appIDLast / userCursorStyle / kittyFlags are written only by start-up code. "
                   "The token sequences of the model are compared with the real bytes of start-up/SetAppID/Suspend/Resume/Close and of the signal- and panic-triggered shutdown (model = the regenerated signal arm / recover handler), and the real bytes are run through the mode terminal.",
-    "level_note": "Prior values: modes Vaxis never queries are assumed reset before start-up, the pointer shape 'text', the cursor style the terminal reports (0 if it does not answer) and the id of its "
+    "level_note": "Round 4 — prior values are ARBITRARY (Props/C04Prior): balanced_any_prior / resume_reestablishes_any_prior hold from every terminal state before start-up (any mode table — withPrior lifting, "
+                  "step_withPrior / runOps_withPrior —, any cursor visibility / screen / keypad mode / pointer / pen — unknown symbols, priorB kernel-evaluated for all 512 assignments): a mode the session wrote ends reset, "
+                  "a mode it never wrote keeps its prior value, kitty stack / cursor shape / application id return to their prior values; decided reading of the text: for what Vaxis does not query, 'prior value' = reset "
+                  "(literal_restored_iff, prior_set_mode_ends_reset say what the literal reading would need). Exit paths (decided: Close, the eight signals setupSignals registers — not SIGHUP —, a panic of the input goroutine; "
+                  "not a panic of the application's goroutine): every_exit_restores_at_every_point (each path from every point of every session) + exit_path_completes (every schedule); on the real code also a kill signal while suspended "
+                  "(served at Resume, serialised by suspendMu), before the first frame, and MID-FRAME by a forced schedule (gateConsole.Reset) — the latter is finding F404 (recorded: the application's frame follows the restore sequence; "
+                  "root cause C10 F410; Witness/F404). Still assumed of the prior terminal (PriorOK): it implements what it advertises, answers the two queries with its current values, no hyperlink open. "
+                  "The cursor style the terminal reports (0 if it does not answer) and the id of its "
                   "OSC 176 reply are the prior ones; a terminal ignores private modes it did not advertise. balanced_all_guards restates balanced over guard functions (every String -> Bool that is false outside the nine guard variables is one of the 512 assignments: C04Guards.v_eq); the I/O-error returns of Resume (expr: guards) are assumed not taken. "
                   "Sessions: while suspended the application only resumes or shuts down (Resume without Suspend / rendering while suspended are skipped). "
                   "Validated by correspondence only: that the model's token lists are the real bytes (incl. the writer prologue/epilogue and the direct-mapped run-time writes at real values); the signal path "
